@@ -565,6 +565,24 @@ func (c16) recursive(c *fw.Case) {
 
 func (p c16) unsupported(c *fw.Case) {
 	r := c.R
+	if r.IntN(8) == 0 {
+		// malformed jsonschema tags: an error with and without IgnoreInvalidTypes
+		t := gen.Pick(r, typecorpus.BadTags)
+		for _, opts := range []*jsonschema.ForOptions{nil, {IgnoreInvalidTypes: true}} {
+			var err error
+			if !c.CallChecked("ForType", map[string]any{"type": t.String(), "bad_tag": true}, func() { _, err = jsonschema.ForType(t, opts) }) {
+				return
+			}
+			c.Eval(1)
+			if err == nil {
+				c.Violation("a malformed jsonschema tag did not yield an error", map[string]any{"type": t.String()})
+				return
+			}
+		}
+		c.Digest("bad-tag-error")
+		c.Nontrivial("bad-tag|" + t.String())
+		return
+	}
 	t := gen.Pick(r, typecorpus.Unsupported)
 	var err error
 	var s *jsonschema.Schema
